@@ -416,6 +416,7 @@ func c17Oracle(info *runInfo, res *verifsim.Result) {
 		return false
 	}
 	judged := 0
+	anyHeld := false // some request really was parked in one of its own calls
 	for _, k := range order {
 		r := reqs[k]
 		path := r.act.S
@@ -474,6 +475,7 @@ func c17Oracle(info *runInfo, res *verifsim.Result) {
 		}
 		if held {
 			res.Probe("request_held")
+			anyHeld = true
 		}
 		status := int(r.exit.V)
 
@@ -773,7 +775,11 @@ func c17Oracle(info *runInfo, res *verifsim.Result) {
 		}
 	}
 	// while a request is parked the advertiser keeps answering solicitations
-	if strings.HasPrefix(info.plan.Class, "held-scrape") {
+	// (only if it was the request that got parked: a request that was refused
+	// leaves the stall armed for whoever reads that sysctl next - the dialer,
+	// when it re-dials - and a daemon waiting for its own system call is not a
+	// daemon blocked by a scrape)
+	if strings.HasPrefix(info.plan.Class, "held-scrape") && anyHeld {
 		for _, is := range cfg.Interfaces {
 			if is.Advertise && !is.UnicastOnly {
 				for _, ifn := range is.names() {
